@@ -235,66 +235,69 @@ func (h *histGen) gen(n int) []skOp {
 // applyOp executes op on the real sketch *s (which may be replaced). It returns
 // the error of the library call, if any.
 func applyOp(c *core.Ctx, name string, s *mon.Sketch, spec *gen.StoreSpec, mp **gen.Map, op skOp) (err error) {
-	m := *mp
 	c.Logf("%s.%s", name, op)
 	c.Count("event."+opNames[op.kind], 1)
-	c.Guard(opNames[op.kind], func() {
-		switch op.kind {
-		case opAdd:
-			err = s.I().Add(op.v)
-		case opAddW:
-			err = s.I().AddWithCount(op.v, op.w)
-		case opMerge:
-			err = s.MergeWith(op.arg.build(s.Exact, m))
-		case opDecodeMerge:
-			a := op.arg.build(s.Exact, m)
-			var b []byte
-			a.I().Encode(&b, op.omit)
-			err = s.I().DecodeAndMergeWith(b)
-		case opClear:
-			s.I().Clear()
-		case opReweight:
-			err = s.I().Reweight(op.w)
-		case opRoundTrip:
-			var b []byte
-			s.I().Encode(&b, op.omit)
-			supplied := m.M
-			if !op.omit {
-				supplied = nil
-			}
-			d, e := mon.Decode(s.Exact, b, op.target, supplied)
-			if e != nil {
-				err = e
-				return
-			}
-			*s = d
-			*spec = op.target
-		case opProtoRoundTrip:
-			if s.Exact {
-				// the protobuf form carries no exact statistics: round-trip through Copy instead
-				*s = s.Copy()
-				return
-			}
-			pb := s.P.ToProto()
-			d, e := fromProto(pb, op.target)
-			if e != nil {
-				err = e
-				return
-			}
-			*s = mon.Sketch{P: d}
-			*spec = op.target
-		case opCopySwitch:
-			old := *s
-			*s = s.Copy()
-			// poison the original
-			old.I().Add(m.ClampIn(1))
-			old.I().Clear()
-		case opChangeMapping:
-			*s = s.ChangeMapping(op.newMap.M, op.target, op.w)
-			*spec = op.target
-			*mp = op.newMap
+	c.Guard(opNames[op.kind], func() { err = rawApply(s, spec, mp, op) })
+	return err
+}
+
+// rawApply executes op without touching any monitor state (also used from the
+// unsynchronised goroutines of the race pass).
+func rawApply(s *mon.Sketch, spec *gen.StoreSpec, mp **gen.Map, op skOp) (err error) {
+	m := *mp
+	switch op.kind {
+	case opAdd:
+		err = s.I().Add(op.v)
+	case opAddW:
+		err = s.I().AddWithCount(op.v, op.w)
+	case opMerge:
+		err = s.MergeWith(op.arg.build(s.Exact, m))
+	case opDecodeMerge:
+		a := op.arg.build(s.Exact, m)
+		var b []byte
+		a.I().Encode(&b, op.omit)
+		err = s.I().DecodeAndMergeWith(b)
+	case opClear:
+		s.I().Clear()
+	case opReweight:
+		err = s.I().Reweight(op.w)
+	case opRoundTrip:
+		var b []byte
+		s.I().Encode(&b, op.omit)
+		supplied := m.M
+		if !op.omit {
+			supplied = nil
 		}
-	})
+		d, e := mon.Decode(s.Exact, b, op.target, supplied)
+		if e != nil {
+			return e
+		}
+		*s = d
+		*spec = op.target
+	case opProtoRoundTrip:
+		if s.Exact {
+			// the protobuf form carries no exact statistics: round-trip through Copy instead
+			*s = s.Copy()
+			return nil
+		}
+		pb := s.P.ToProto()
+		d, e := fromProto(pb, op.target)
+		if e != nil {
+			return e
+		}
+		*s = mon.Sketch{P: d}
+		*spec = op.target
+	case opCopySwitch:
+		old := *s
+		*s = s.Copy()
+		// poison the original
+		old.I().Add(m.ClampIn(1))
+		old.I().Clear()
+	case opChangeMapping:
+		*s = s.ChangeMapping(op.newMap.M, op.target, op.w)
+		*spec = op.target
+		*mp = op.newMap
+	}
 	return err
 }
 
